@@ -16,15 +16,18 @@ RULE = ("MazePlot(maze)[.add_node_values][.add_true_path][.add_predicted_path].p
         "uniform and non-wall (carry its value when values are supplied), the strip of every lattice edge must be passage iff the "
         "cells are connected (wall = -1 without values, masked/NaN with values); the true-path Line2D and predicted-path Quiver "
         "geometry must be ul*(col+1/2), ul*(row+1/2) of their cells in order with end markers on the first/last cell; to_ascii() "
-        "must equal the maze's own as_ascii() (for a targeted maze, whose constructor solves it, after mapping X to space). "
+        "must equal the maze's own as_ascii() (for a targeted maze, whose constructor solves it, after mapping X to space). Solved mazes also "
+        "carry non-shortest stored solutions (detours). Every third maze is plotted again three times (same object or an equal fresh "
+        "one) with the other values mode, the original one, and plain, and each image is judged against its own arguments. "
         "non-trivial & distinct = distinct (kind, connection structure, unit length, values?, paths) plots")
-ASSUMPTIONS = ["corner pixels and the outer frame are unspecified and not judged", "matplotlib Agg backend; artists are read back, nothing is rendered to pixels",
+ASSUMPTIONS = ["the wall colour is opaque black in both modes (gray map at -1 without values; NaN with the bad colour set to black with values); the harness only uses the colour maps Blues and viridis, neither of which contains black", "corner pixels and the outer frame are unspecified and not judged", "matplotlib Agg backend; artists are read back, nothing is rendered to pixels",
                "predicted paths have >= 2 cells (a quiver needs one arrow)"]
 NSHARDS = {"quick": 16, "thorough": 16}
 THRESHOLDS = {"quick": {"c20:plots": 1200, "c20:kind:LatticeMaze": 200, "c20:kind:TargetedLatticeMaze": 200, "c20:kind:SolvedMaze": 200,
                         "c20:with-values": 300, "c20:without-values": 300, "c20:strips-checked": 20000, "c20:blocks-checked": 10000,
                         "c20:true-path": 500, "c20:predicted-path": 500, "c20:ascii": 1200, "c20:oblong": 100,
-                        **{f"c20:ul:{u}": 100 for u in (3, 4, 5, 9, 14)}, "c20:negative-values": 50, "c20:constant-values": 50}}
+                        **{f"c20:ul:{u}": 100 for u in (3, 4, 5, 9, 14)}, "c20:negative-values": 50, "c20:constant-values": 50,
+                        "c20:replots": 900, "c20:drawn-images": 2000, "c20:replot-plain-after-values": 300, "c20:detour-solution": 30}}
 THRESHOLDS["thorough"] = dict(THRESHOLDS["quick"])
 ANCHORS = ["maze_dataset.plotting.plot_maze:MazePlot._lattice_maze_to_img", "maze_dataset.plotting.plot_maze:MazePlot._rowcol_to_coord",
            "maze_dataset.plotting.plot_maze:MazePlot._plot_path", "maze_dataset.plotting.plot_maze:MazePlot.to_ascii",
@@ -44,7 +47,9 @@ def is_wall(v, with_values):
     return (not with_values) and f == -1.0
 
 
-def check_image(ctx, img, cl, ul, values, case):
+def check_image(ctx, img, cl, ul, values, case, artist=None):
+    if artist is not None:
+        check_drawn(ctx, artist, cl, ul, case)
     R, C = cl.shape[1:]
     g = Graph(cl)
     with_values = values is not None
@@ -79,6 +84,38 @@ def check_image(ctx, img, cl, ul, values, case):
                               dict(case, edge=((r, c), (rr, cc))))
 
 
+def check_drawn(ctx, artist, cl, ul, case):
+    """what the image artist actually paints (norm + colour map + its 'bad' colour applied): a wall strip must be painted opaque
+    black - the wall colour of both modes (gray map at -1; NaN with the bad colour set to black) - and neither a passage strip
+    nor a cell block may be"""
+    R, C = cl.shape[1:]
+    g = Graph(cl)
+    try:
+        rgba = np.asarray(artist.to_rgba(artist.get_array()), dtype=float)
+    except Exception as ex:  # noqa: BLE001
+        ctx.tally("c20:drawn-colours-unavailable")
+        ctx.note(f"to_rgba failed: {ex!r}"[:200])
+        return
+    if rgba.ndim != 3 or rgba.shape[:2] != (R * ul + 1, C * ul + 1):
+        return  # size is judged by check_image
+    black = (rgba[..., :3].max(axis=-1) < 0.02) & (rgba[..., 3] > 0.98)
+    ctx.tally("c20:drawn-images")
+    for r in range(R):
+        for c in range(C):
+            blk = black[r * ul + 1:(r + 1) * ul, c * ul + 1:(c + 1) * ul]
+            ctx.check(not blk.any(), "C20/drawn/cell-block-painted-as-wall", f"cell {(r, c)}", dict(case, cell=(r, c)))
+            for d, (rr, cc) in ((0, (r + 1, c)), (1, (r, c + 1))):
+                if rr >= R or cc >= C:
+                    continue
+                strip = black[(r + 1) * ul, c * ul + 1:(c + 1) * ul] if d == 0 else black[r * ul + 1:(r + 1) * ul, (c + 1) * ul]
+                if g.has_edge((r, c), (rr, cc)):
+                    ctx.check(not strip.any(), "C20/drawn/connected-edge-painted-as-wall", f"edge {(r, c)}-{(rr, cc)}", dict(case, edge=((r, c), (rr, cc))))
+                else:
+                    ctx.check(bool(strip.all()), "C20/drawn/wall-not-painted-as-wall",
+                              lambda: f"edge {(r, c)}-{(rr, cc)} is painted {rgba[(r + 1) * ul, c * ul + 1] if d == 0 else rgba[r * ul + 1, (c + 1) * ul]} (wall colour is opaque black)",
+                              dict(case, edge=((r, c), (rr, cc))))
+
+
 def centres(path, ul):
     return np.array([[ul * (c + 0.5), ul * (r + 0.5)] for r, c in path], dtype=float)
 
@@ -108,6 +145,20 @@ def run(ctx):
         comp = sorted(g.component_of(s))
         e = comp[int(rng.integers(len(comp)))]
         sol = g.shortest_path(s, e, rng)
+        if kind == "SolvedMaze" and j % 2 == 1:
+            # a stored solution need not be a shortest route (detours, the long way round a cycle, a model roll-out):
+            # a self-avoiding random walk along connections from s
+            walk, cur = [s], s
+            for _ in range(int(rng.integers(1, 2 * (R + C)))):
+                nxt = [v for v in g.adj[cur] if v not in walk]
+                if not nxt:
+                    break
+                cur = nxt[int(rng.integers(len(nxt)))]
+                walk.append(cur)
+            if len(walk) >= 2:
+                sol, e = walk, walk[-1]
+                if len(sol) - 1 > g.bfs(s)[e]:
+                    ctx.tally("c20:detour-solution")
         ul = [3, 4, 5, 9, 14][int(rng.integers(5))]
         maze = lib.lattice(cl) if kind == "LatticeMaze" else (lib.targeted(cl, s, e) if kind == "TargetedLatticeMaze" else lib.solved(cl, sol))
         vmode = j % 5
@@ -167,7 +218,7 @@ def run(ctx):
             ctx.nontrivial(kind, cl, ul, values is not None, len(preds), s, e)
             if not ctx.check(len(ax.images) >= 1, "C20/no-image", "", case):
                 continue
-            check_image(ctx, ax.images[0].get_array(), cl, ul, values, case)
+            check_image(ctx, ax.images[0].get_array(), cl, ul, values, case, artist=ax.images[0])
             # ---- paths -------------------------------------------------------
             true_path = sol if kind in ("TargetedLatticeMaze", "SolvedMaze") else extra_true
             lines = list(ax.lines)
@@ -220,6 +271,29 @@ def run(ctx):
                                                 sol if kind == "SolvedMaze" else None))
             got_ascii = ascii_plot.replace("X", " ") if kind == "TargetedLatticeMaze" else ascii_plot
             ctx.check(got_ascii == exp_ascii, "C20/to_ascii-not-the-maze", lambda: f"plot:\n{ascii_plot}\nexpected:\n{exp_ascii}", case)
+            # ---- history: the same maze (same object / an equal fresh object) plotted again with the other values mode,
+            # then again as first time; every image must still be the one of its own arguments
+            if j % 3 == 0:
+                seq = [None if values is not None else rng.random((R, C)) * 3 + 0.5, values, None]
+                for step, v2 in enumerate(seq):
+                    maze2 = maze if (j + step) % 2 == 0 else (lib.lattice(cl.copy()) if kind == "LatticeMaze" else
+                                                               (lib.targeted(cl.copy(), s, e) if kind == "TargetedLatticeMaze" else lib.solved(cl.copy(), sol)))
+                    c2 = dict(case, history_step=step, values=v2 is not None, same_object=maze2 is maze)
+                    try:
+                        with warnings.catch_warnings():
+                            warnings.simplefilter("ignore")
+                            mp2 = MazePlot(maze2, unit_length=ul)
+                            if v2 is not None:
+                                mp2.add_node_values(np.array(v2, dtype=float).copy())
+                            mp2.plot()
+                        ctx.ev(); ctx.tally("c20:replots")
+                        ctx.tally("c20:replot-plain-after-values" if (v2 is None and step > 0 or (v2 is None and values is not None)) else "c20:replot-other")
+                        if ctx.check(len(mp2.ax.images) >= 1, "C20/no-image", "", c2):
+                            check_image(ctx, mp2.ax.images[0].get_array(), cl, ul, v2, c2, artist=mp2.ax.images[0])
+                    except Exception as ex:  # noqa: BLE001
+                        ctx.violation(f"C20/plot/exception/{type(ex).__name__}", repr(ex)[:500], c2)
+                    finally:
+                        plt.close("all")
             if j < 3:
                 ctx.sample(dict(kind=kind, shape=(R, C), ul=ul, values=values is not None, n_pred=len(preds), image_shape=list(ax.images[0].get_array().shape)))
         finally:
